@@ -52,6 +52,10 @@ type Server struct {
 	wg         *sync.WaitGroup
 	onConnect  ConnectHook
 	onClose    TerminateHook
+	// mu orders the registration of an accepted connection in wg (Serve) against the start of
+	// Shutdown: a connection is either registered before Shutdown waits, or refused.
+	mu           sync.Mutex
+	shuttingDown bool
 }
 
 // ConnectHook wraps the configured connectHook function, calling it with the provided context.
@@ -89,16 +93,14 @@ func NewServer(listener net.Listener, handler RequestHandler) *Server {
 	ctx, cancel := context.WithCancel(context.Background())
 	recvCtx, recvCancel := context.WithCancel(context.Background())
 	return &Server{
-		listener,
-		handler,
-		slog.Default(),
-		ctx,
-		cancel,
-		recvCtx,
-		recvCancel,
-		new(sync.WaitGroup),
-		nil,
-		nil,
+		listener:   listener,
+		handler:    handler,
+		logger:     slog.Default(),
+		ctx:        ctx,
+		cancel:     cancel,
+		recvCtx:    recvCtx,
+		recvCancel: recvCancel,
+		wg:         new(sync.WaitGroup),
 	}
 }
 
@@ -144,7 +146,16 @@ func (srv *Server) Serve() error {
 			return err
 		}
 		verifYield("srv.serve.accepted")
+		// A connection accepted just before Shutdown closed the listener must not be started
+		// behind Shutdown's back (wg.Wait may already have returned).
+		srv.mu.Lock()
+		if srv.shuttingDown {
+			srv.mu.Unlock()
+			_ = conn.Close()
+			return ErrShutdown
+		}
 		srv.wg.Add(1)
+		srv.mu.Unlock()
 		go srv.handleConn(conn)
 	}
 }
@@ -159,6 +170,9 @@ func (srv *Server) Serve() error {
 // Returns any error encountered while closing the listener.
 func (srv *Server) Shutdown() error {
 	srv.logger.Warn("Shutting down")
+	srv.mu.Lock()
+	srv.shuttingDown = true
+	srv.mu.Unlock()
 	// 1. Close listener to prevent new incoming conections
 	err := srv.listener.Close()
 	// 2. Cancel recvCtx to stop receiving new requests
